@@ -110,13 +110,13 @@ def oracle(n, alpha, eps, trace) -> list[str]:
                     errs.append(f"non-improving outcome {cur!r}->{new!r} gave reward {r!r}, reference {ref!r}")
         elif t[0] == "L":
             _, a, r, qb, cb, qa, ca = t
-            step = Fraction(1, cb[a] + 1) if alpha == -1 else Fraction(alpha)
+            step = Fraction(1, int(cb[a]) + 1) if alpha == -1 else Fraction(alpha)
             want = Fraction(float(qb[a])) + step * (Fraction(float(r)) - Fraction(float(qb[a])))
             if not close(float(qa[a]), want) and abs(Fraction(float(qa[a])) - want) > Fraction(1, 2 ** 45):
                 errs.append(f"estimate of action {a} moved to {qa[a]!r}, rule gives {float(want)!r}")
-            if ca[a] != cb[a] + 1 or any(ca[j] != cb[j] for j in range(n) if j != a):
+            if int(ca[a]) != int(cb[a]) + 1 or any(int(ca[j]) != int(cb[j]) for j in range(n) if j != a):
                 errs.append("counters not updated as documented")
-            if any(f2h(qa[j]) != f2h(qb[j]) for j in range(n) if j != a):
+            if any(f2h(float(qa[j])) != f2h(float(qb[j])) for j in range(n) if j != a):
                 errs.append("an estimate other than the rewarded action's changed")
         else:
             _, u, c, act = t
